@@ -384,6 +384,19 @@ func runNestingHist(e *emitter, c *histConf) {
 func runHistory(e *emitter, c *histConf, opts histOpts, prop string) {
 	ver := c.versions[0].name
 	st := newState(c, ver)
+	// now and then something else ran in the process before: typed operations whose root is
+	// itself a leaf (empty objects), which is what leaves a mark in a pooled walker that is
+	// not cleaned
+	if e.rng.Intn(3) == 0 {
+		if tv := c.typedAt(ver, M{}, true); tv != nil {
+			func() {
+				defer func() { recover() }()
+				tv.Merge(tv)
+				tv.Compare(tv)
+				tv.ToFieldSet()
+			}()
+		}
+	}
 	prevCfg := map[string]interface{}{}
 	steps := 3 + e.rng.Intn(6)
 	for i := 0; i < steps; i++ {
